@@ -201,6 +201,7 @@ class Ctx:
             self.decisions.append(d)
             self.pc.append(cond if d else z3.Not(cond))
             return d
+        self.instantiate_pending()
         # new decision: check which sides are feasible.  Every symbolic decision is recorded in the trail (so a
         # replayed prefix lines up); only genuine forks (both sides feasible) get an alternative explored.
         can_t = self.feasible(cond)
@@ -219,6 +220,14 @@ class Ctx:
             self.pc.append(z3.Not(cond))
             return False
         raise PathInfeasible()
+
+    def instantiate_pending(self):
+        """registered universal facts are instantiated at the witness indices before a new branch is judged feasible"""
+        try:
+            from .values import instantiate_universals
+            instantiate_universals(self)
+        except ImportError:
+            pass
 
     def feasible(self, extra):
         """path pruning: infeasible only if the hypotheses with nonlinear terms abstracted are unsatisfiable
